@@ -55,9 +55,11 @@ def extra(ctx):
         if exe is None:
             ctx["unproved"].append({"what": "thread-workload-build", "detail": log[-1000:]})
             continue
-        for n in (8, 16):
+        thorough = ctx["tier"] == "thorough"
+        for n in ((8, 16, 32, 64) if thorough else (8, 16)):
             for rep in range(3 if not tsan else 2):
-                rc, out = V.sh([exe, str(n)], timeout=600, env=dict(os.environ, TSAN_OPTIONS="halt_on_error=0 exitcode=66"))
+                iters = (20000 if not tsan else 4000) if thorough else 1500
+                rc, out = V.sh([exe, str(n), str(iters)], timeout=1800, env=dict(os.environ, TSAN_OPTIONS="halt_on_error=0 exitcode=66"))
                 runs.append({"threads": n, "tsan": tsan, "rc": rc, "out": out[-300:]})
                 if "WARNING: ThreadSanitizer" in out:
                     viol.append(("data-race", "ThreadSanitizer reports a data race with %d threads" % n,
